@@ -78,6 +78,11 @@ func main() {
 			fatal("usage: harness sweep <name> <out.ndjson> [args]")
 		}
 		runSweep(os.Args[2], os.Args[3], os.Args[4:])
+	case "corpus":
+		if len(os.Args) != 4 {
+			fatal("usage: harness corpus <repo> <out.ndjson>")
+		}
+		runCorpus(os.Args[2], os.Args[3])
 	default:
 		fatal("unknown command %q", os.Args[1])
 	}
